@@ -48,14 +48,46 @@ thread_local! {
 /// a deterministic panic (a violation) instead of a watchdog time-out.
 pub const DEFAULT_STEP_BUDGET: u64 = 200_000_000;
 
+thread_local! {
+    static GUARD_DEPTH: std::cell::Cell<u32> = std::cell::Cell::new(0);
+}
+
+/// Automaton construction legitimately follows very many failure links (the
+/// DFA and contiguous builders call the noncontiguous `next_state`), so the
+/// step budget - which exists to turn a runaway *search* into a panic - is
+/// suspended while a searcher is being built.
+pub struct SuspendBudget;
+
+impl SuspendBudget {
+    pub fn new() -> SuspendBudget {
+        aho_corasick::verif::set_step_budget(None);
+        SuspendBudget
+    }
+}
+
+impl Drop for SuspendBudget {
+    fn drop(&mut self) {
+        let in_guard = GUARD_DEPTH.with(|d| d.get()) > 0;
+        if in_guard && !BUDGET_ARMED.with(|b| b.get()) {
+            aho_corasick::verif::set_step_budget(Some(DEFAULT_STEP_BUDGET));
+        }
+    }
+}
+
 /// Run a library call, turning a panic into Err(message).
 pub fn guard<T>(f: impl FnOnce() -> T) -> Result<T, String> {
     let own_budget = !BUDGET_ARMED.with(|b| b.get());
-    if own_budget {
+    let outermost = GUARD_DEPTH.with(|d| {
+        let v = d.get();
+        d.set(v + 1);
+        v == 0
+    });
+    if own_budget && outermost {
         aho_corasick::verif::set_step_budget(Some(DEFAULT_STEP_BUDGET));
     }
     let r = catch_unwind(AssertUnwindSafe(f));
-    if own_budget {
+    GUARD_DEPTH.with(|d| d.set(d.get() - 1));
+    if own_budget && outermost {
         aho_corasick::verif::set_step_budget(None);
     }
     match r {
@@ -132,6 +164,7 @@ pub fn build_nc(
     cfg: &Cfg,
     pats: &[Vec<u8>],
 ) -> Result<nfa::noncontiguous::NFA, String> {
+    let _suspend = SuspendBudget::new();
     nfa::noncontiguous::Builder::new()
         .match_kind(mk(cfg.mk))
         .prefilter(cfg.prefilter)
@@ -145,6 +178,7 @@ pub fn build_c(
     cfg: &Cfg,
     pats: &[Vec<u8>],
 ) -> Result<nfa::contiguous::NFA, String> {
+    let _suspend = SuspendBudget::new();
     nfa::contiguous::Builder::new()
         .match_kind(mk(cfg.mk))
         .prefilter(cfg.prefilter)
@@ -156,6 +190,7 @@ pub fn build_c(
 }
 
 pub fn build_d(cfg: &Cfg, pats: &[Vec<u8>]) -> Result<dfa::DFA, String> {
+    let _suspend = SuspendBudget::new();
     dfa::Builder::new()
         .match_kind(mk(cfg.mk))
         .prefilter(cfg.prefilter)
@@ -181,6 +216,7 @@ impl Searcher {
     /// Build; a panic or an `Err` from the builder is reported as Err.
     pub fn build(cfg: &Cfg, pats: &[Vec<u8>]) -> Result<Searcher, String> {
         let r = guard(|| -> Result<Searcher, String> {
+            let _suspend = SuspendBudget::new();
             Ok(match cfg.engine {
                 Engine::LowNc => Searcher::Nc(build_nc(cfg, pats)?),
                 Engine::LowC => Searcher::C(build_c(cfg, pats)?),
